@@ -19,7 +19,10 @@ import (
 // --- the universe ----------------------------------------------------------
 
 var (
-	states  = []string{"absent", "file", "collection"}
+	// "link": the resource is a symbolic link (placed on disk) to a regular
+	// file elsewhere in the served directory; the tag GET announces for it is
+	// the one conditional requests must accept back
+	states  = []string{"absent", "file", "collection", "link"}
 	methods = []string{"PUT", "DELETE"}
 	conds   = []string{"unset", "*", "current", "stale", "other", "bare-word", "weak", "list", "unterminated"}
 )
@@ -212,6 +215,26 @@ func buildFixture(dir, state string) (*fixture, error) {
 				return nil, err
 			}
 		}
+	case "link":
+		lt := filepath.Join(root, "lt.txt")
+		if err := writeAt(lt, "old!", tStale); err != nil {
+			return nil, err
+		}
+		if err := os.Symlink("lt.txt", t); err != nil {
+			return nil, err
+		}
+		v, err := serverTag(fx.h, "/t")
+		if err != nil {
+			return nil, err
+		}
+		fx.staleHdr = v
+		if err := writeAt(lt, "current-body", tCur); err != nil {
+			return nil, err
+		}
+		if v, err = serverTag(fx.h, "/t"); err != nil {
+			return nil, err
+		}
+		fx.curHdr = v
 	case "collection":
 		if err := os.Mkdir(t, 0755); err != nil {
 			return nil, err
@@ -398,6 +421,20 @@ func runCell(c *fw.Ctx, cs *prodCase) (*outcome, error) {
 	}
 	o := &outcome{status: rp.Status, panic: rp.Panic, err: rp.Err, seen: fx.h.last, fx: fx, shape: after.Shape()}
 	o.effect, o.diff = classify(before, after, putBody)
+	if cs.State == "link" && o.effect != "unchanged" {
+		// Whether a write goes through the link or replaces it is not the
+		// statement's business: the effect is judged by what GET serves
+		// afterwards.
+		g := do(fx.h, "GET", "/t", nil, nil)
+		switch {
+		case g.Status == 200 && string(g.Body) == putBody:
+			o.effect = "put-applied"
+		case g.Status == 404:
+			o.effect = "deleted"
+		default:
+			o.effect = fmt.Sprintf("other-change (GET afterwards: %d)", g.Status)
+		}
+	}
 	return o, nil
 }
 
@@ -504,14 +541,14 @@ func runProduct(c *fw.Ctx) {
 				for _, inm := range conds {
 					if c.Mine(idx) {
 						execProduct(c, prodCase{Method: m, State: st, IM: im, INM: inm})
-						c.Observe("universe", "product cell (exhaustive 2x3x9x9)", 1)
+						c.Observe("universe", "product cell (exhaustive 2x4x9x9)", 1)
 					}
 					idx++
 				}
 			}
 		}
 	}
-	c.Note("exhaustive_part", "product: {PUT,DELETE} x {absent,file,collection} x If-Match{unset,*,current,stale,other,bare-word,weak,list,unterminated} x If-None-Match{same} = 486 cells, each executed once per run")
+	c.Note("exhaustive_part", "product: {PUT,DELETE} x {absent,file,collection,symbolic link to a file} x If-Match{unset,*,current,stale,other,bare-word,weak,list,unterminated} x If-None-Match{same} = 648 cells, each executed once per run")
 }
 
 // --- announce -----------------------------------------------------------------------
